@@ -34,6 +34,10 @@ Muts == {<<"none", "p1", 1, "">>}
    \cup {<<"noref", "p4", 1, w>> : w \in {"named", "unnamed"}}
    \* depends_on naming a stage by its DEFAULT name (the task's / the included pipeline's name): well formed
    \cup {<<"defdep", "p4", 1, w>> : w \in {"task", "pipe"}}
+   \* a pipeline declared under the empty name: a stage without task and pipeline then names IT. "self": its own
+   \* stage does (it includes itself); "inc": a stage of p4 does (well formed: p4 runs what the pipeline "" runs);
+   \* "loop": p4 includes "" and "" includes p4
+   \cup {<<"emptyname", "p4", 1, w>> : w \in {"self", "inc", "loop"}}
 VARIABLE mut
 Init == mut \in Muts
 Next == UNCHANGED mut
@@ -50,6 +54,10 @@ Apply(m) ==
        [] k = "taskpipe" -> (IF m[4] = "self" THEN [Base EXCEPT !.pipes["p2"] = Append(@, St("x", "p2", "", {}))]
                                               ELSE [Base EXCEPT !.pipes["p2"] = Append(@, St("x", "p4", "", {}))])
        [] k = "noref" -> [Base EXCEPT !.pipes["p4"] = Append(@, St(IF m[4] = "named" THEN "z" ELSE "", "", "", {}))]
+       [] k = "emptyname" ->
+            (CASE m[4] = "self" -> [Base EXCEPT !.pipes = @ @@ ("" :> <<St("x", "", "", {})>>)]
+               [] m[4] = "inc" -> [Base EXCEPT !.pipes = [@ EXCEPT !["p4"] = Append(@, St("z", "", "", {}))] @@ ("" :> <<St("m", "t3", "", {})>>)]
+               [] OTHER -> [Base EXCEPT !.pipes = [@ EXCEPT !["p4"] = Append(@, St("z", "", "", {}))] @@ ("" :> <<St("m", "", "p4", {})>>)])
        [] k = "defdep" -> (IF m[4] = "task" THEN [Base EXCEPT !.pipes["p4"] = <<St("", "t1", "", {}), St("k", "t2", "", {"t1"})>>]
                                             ELSE [Base EXCEPT !.pipes["p4"] = <<St("", "", "p3", {}), St("k", "t2", "", {"p3"})>>])
        [] k = "defname" -> (CASE m[4] = "ok" -> [Base EXCEPT !.pipes["p4"][1].name = ""]                       \* called t1: no clash
@@ -70,17 +78,19 @@ EffName(s) == IF s.name # "" THEN s.name ELSE IF s.task # "" THEN s.task ELSE s.
 NamesOf(c, p) == {EffName(s) : s \in StagesOf(c, p)}
 Includes(c, p) == {s.pipe : s \in {t \in StagesOf(c, p) : t.task = ""}}
 RECURSIVE ReachP(_, _, _)
-ReachP(c, S, k) == IF k = 0 THEN S ELSE ReachP(c, S \cup UNION {Includes(c, q) : q \in S \cap PNames}, k - 1)
+PN(c) == DOMAIN c.pipes                                  \* the declared pipelines (PNames, and "" in some mutations)
+ReachP(c, S, k) == IF k = 0 THEN S ELSE ReachP(c, S \cup UNION {Includes(c, q) : q \in S \cap PN(c)}, k - 1)
 \* --- the statement ---
 WellFormed(c) ==
-  /\ \A p \in PNames : \A s \in StagesOf(c, p) :
-        /\ (s.task # "" => s.task \in Tasks) /\ (s.task = "" => s.pipe \in PNames)
+  /\ \A p \in PN(c) : \A s \in StagesOf(c, p) :
+        /\ (s.task # "" => s.task \in Tasks) /\ (s.task = "" => s.pipe \in PN(c))
         /\ s.deps \subseteq NamesOf(c, p)
-  /\ \A p \in PNames : Cardinality(NamesOf(c, p)) = Len(c.pipes[p])
+  /\ \A p \in PN(c) : Cardinality(NamesOf(c, p)) = Len(c.pipes[p])
   /\ c.wtask \in Tasks
-  /\ \A p \in PNames : p \notin ReachP(c, Includes(c, p), 3)
+  /\ \A p \in PN(c) : p \notin ReachP(c, Includes(c, p), 4)
 Expected == WellFormed(Cfg)
 Emit == PrintT(<<"REF", ToJson([mut |-> mut, cfg |-> Cfg, wellformed |-> Expected])>>)
 \* sanity of the mutation table itself: only the unmutated configuration is well formed
-OnlyBaseWellFormed == Expected <=> (mut[1] \in {"none", "both", "defdep"} \/ (mut[1] = "defname" /\ mut[4] = "ok"))
+OnlyBaseWellFormed == Expected <=> (mut[1] \in {"none", "both", "defdep"} \/ (mut[1] = "defname" /\ mut[4] = "ok")
+                                                                             \/ (mut[1] = "emptyname" /\ mut[4] = "inc"))
 =====================================================================
